@@ -160,7 +160,7 @@ def run(ctx, rep):
     rng = ctx.rng
     rep.rule = ("random populations (0..12 slots, some already evaluated, some carrying a stale value) x redundant/non-redundant x serial/multiprocess "
                 "(2-4 workers, job delays permuting completion order) x per-call cost 1..4; islands and serial archipelagos of 2-4 islands over "
-                "random histories; distinct = distinct (population, mode); non-trivial = at least one individual is due for evaluation")
+                "random histories incl. regenerated populations; a state-changing fitness function (serial and pools); multi-process local optimization; distinct = distinct (population, mode); non-trivial = at least one individual is due for evaluation")
     rep.assumptions = ["multiprocessing.Pool returns each job's own result (completion order arbitrary)"]
     lines, meta = [], []
     n_serial = ctx.n(1500, 15000)
